@@ -185,7 +185,11 @@ fn run(case: &str) -> String {
         }
         .to_string();
         let (len, h) = if stc == "C" {
-            let d = save_via(it, &format!("f{}", i)).unwrap_or_default();
+            let saved = save_via(it, &format!("f{}", i));
+            if saved.is_none() {
+                stc = "C?cannot-be-saved".to_string();
+            }
+            let d = saved.unwrap_or_default();
             // the same transfer saved through its entry in the sorted-by-name list must give the same bytes
             for (j, c) in sorted.iter().enumerate() {
                 if c["tooltip"] == it["tooltip"] && c["label"] == it["label"] {
@@ -219,7 +223,8 @@ fn gen(rng: &mut Rng, tier: u32) -> String {
         let serial = 10 + if rng.chance(8) { 0 } else { t };
         let buf = 1 + rng.below(if tier > 0 { 40 } else { 6 }) as usize;
         let nr = 1 + rng.below(if tier > 0 { 12 } else { 5 }) as u32;
-        let last = if rng.chance(2) { buf } else { 1 + rng.below(buf as u64) as usize };
+        // an empty file is announced with one package that carries no data
+        let (nr, last) = if rng.chance(10) { (1u32, 0usize) } else { (nr, if rng.chance(2) { buf } else { 1 + rng.below(buf as u64) as usize }) };
         let size = (buf * (nr as usize - 1) + last) as u32;
         let mut evs = vec![Ev::S(serial, if rng.chance(8) { 0 } else { size }, nr, buf as u32)];
         for p in 1..=nr {
@@ -283,7 +288,9 @@ fn gen(rng: &mut Rng, tier: u32) -> String {
         let orig_len = |p: u32| if p == nr { last } else { buf };
         let n_s = evs.iter().filter(|e| matches!(e, Ev::S(..))).count();
         let s_ok = n_s == 1
-            && matches!(evs.iter().find(|e| !matches!(e, Ev::F(..))), Some(Ev::S(_, sz, n, b)) if (*sz == size || *sz == 0) && *n == nr && *b == buf as u32);
+            && matches!(evs.iter().find(|e| !matches!(e, Ev::F(..))), Some(Ev::S(_, _, n, b)) if *n == nr && *b == buf as u32);
+        // the announced size is part of the announcement: a wrong one (here: 0 for a file that has content) is an inconsistent size
+        let size_ok = matches!(evs.iter().find(|e| matches!(e, Ev::S(..))), Some(Ev::S(_, sz, _, _)) if *sz == size);
         let ds: Vec<(u32, usize)> = evs.iter().filter_map(|e| if let Ev::D(_, p, l, _) = e { Some((*p, *l)) } else { None }).collect();
         let all_orig = evs.iter().all(|e| match e {
             Ev::D(sr, p, l, f) => *p >= 1 && *p <= nr && *l == orig_len(*p) && *f == ((sr * 16 + p) & 0xff) as u8,
@@ -305,7 +312,7 @@ fn gen(rng: &mut Rng, tier: u32) -> String {
             let in_order = seen.iter().copied().eq(1..=nr);
             // a repeat must not come before... (a repeat of an already seen number is always harmless for an in-order stream)
             if in_order {
-                if had_dup { 1 } else { 0 }
+                if !size_ok { 4 } else if had_dup { 1 } else { 0 }
             } else if !had_dup {
                 2
             } else {
